@@ -154,7 +154,7 @@ def _t(level, note, technique):
 
 
 _NOTE = ("trusted base: the gsim runtime (scheduler, simulated pthread objects, memory-model executor) and the "
-         "workload oracles; clang 14 -O1 x86-64 code generation; programs are small (<= 7 threads, <= 12 ops per "
+         "workload oracles; clang 14 and g++ 12 -O1 x86-64 code generation (every main job runs under both); programs are small (<= 7 threads, <= 12 ops per "
          "thread); a clean batch is evidence, not proof")
 
 TEXT = {
